@@ -642,14 +642,23 @@ func elemInfo(ptrType types.Type) (int, bool) {
 }
 
 // allocSize turns a (possibly symbolic) size into a concrete int.
+// Sizes of 2^32 elements and more end the path as a resource-exhaustion crash; symbolic sizes between the
+// concretisation limit and 2^32 are inconclusive (the harness has to bound them).
 func (in *Interp) allocSize(v Value, msg string) int {
 	const maxAlloc = 1 << 22
+	const huge = int64(1) << 32
+	resource := func(what string) {
+		in.throw("resource", what, Iface{T: types.Typ[types.String], V: "runtime: out of memory / " + msg})
+	}
 	if c, ok := v.(int64); ok {
 		if c < 0 {
 			in.throwRuntime(msg)
 		}
+		if c >= huge {
+			resource(fmt.Sprintf("allocation of %d elements", c))
+		}
 		if c > maxAlloc {
-			in.throw("resource", fmt.Sprintf("allocation of %d elements", c), Iface{T: types.Typ[types.String], V: msg})
+			panic(&pathAbort{kind: "limit", msg: fmt.Sprintf("allocation of %d elements is beyond the engine's limit at %s", c, in.posString())})
 		}
 		return int(c)
 	}
@@ -661,28 +670,80 @@ func (in *Interp) allocSize(v Value, msg string) int {
 		in.throwRuntime(msg)
 	}
 	lim := int64(in.path.ConcLimit)
-	if !in.branch(in.st.Cmp(term.OSLt, t, in.st.BVC(uint64(lim), 64))) {
-		in.throw("resource", "allocation with unbounded symbolic size", Iface{T: types.Typ[types.String], V: msg})
+	if in.branch(in.st.Cmp(term.OSLt, t, in.st.BVC(uint64(lim), 64))) {
+		return int(in.concretize(t, 0, lim))
 	}
-	return int(in.concretize(t, 0, lim))
+	if in.branch(in.st.Cmp(term.OSLe, in.st.BVC(uint64(huge), 64), t)) {
+		resource("allocation with a symbolic size of at least 2^32 elements")
+	}
+	panic(&pathAbort{kind: "limit", msg: fmt.Sprintf("symbolic allocation size between %d and 2^32 at %s [%s]", lim, in.posString(), in.stackString(4))})
 }
 
-// concretize forks over the values lo..hi-1 of t (which is known to be within range on this path).
+// concretize forks over the feasible values of t, which is known to lie in [lo, hi) on this path.
+// The chosen value (as offset from lo) is recorded in the decision vector, so replays need no solver.
 func (in *Interp) concretize(t *term.T, lo, hi int64) int64 {
+	t = in.simplify(t)
 	if t.IsConst() {
 		return int64(t.C)
 	}
-	if hi-lo > int64(in.path.ConcLimit)+1 {
-		panic(&pathAbort{kind: "limit", msg: fmt.Sprintf("concretisation range %d..%d too large at %s", lo, hi, in.posString())})
+	p := in.path
+	w := int(t.Sort.W)
+	p.Forks++
+	p.SymForks++
+	if p.pos < len(p.Prefix) {
+		d := p.Prefix[p.pos]
+		p.pos++
+		p.Decisions = append(p.Decisions, d)
+		v := lo + int64(d)
+		in.addPC(in.st.Eq(t, in.st.BVC(uint64(v), w)))
+		return v
 	}
-	for v := lo; v < hi-1; v++ {
-		if in.branch(in.st.Eq(t, in.st.BVC(uint64(v), int(t.Sort.W)))) {
-			return v
+	// frontier: enumerate feasible values with the solver
+	var vals []int64
+	var models []term.Model
+	excl := in.st.True
+	for {
+		r, m := in.queryWith(t, excl)
+		if r == smt.Unsat {
+			break
+		}
+		if r != smt.Sat {
+			p.Tainted = true
+			panic(&pathAbort{kind: "unsupported", msg: "solver unknown while concretising at " + in.posString()})
+		}
+		memo := map[int]uint64{}
+		full := mergeModel(p.Model, m)
+		v := int64(term.Eval(t, full, memo))
+		if w < 64 {
+			v = intInfo{w, true}.norm(v)
+		}
+		if v < lo || v >= hi {
+			panic(fmt.Sprintf("concretize: model value %d outside [%d,%d) at %s", v, lo, hi, in.posString()))
+		}
+		vals = append(vals, v)
+		models = append(models, full)
+		excl = in.st.And(excl, in.st.Not(in.st.Eq(t, in.st.BVC(uint64(v), w))))
+		if len(vals) > p.ConcLimit {
+			panic(&pathAbort{kind: "limit", msg: fmt.Sprintf("more than %d feasible values in [%d,%d) at %s [%s]", p.ConcLimit, lo, hi, in.posString(), in.stackString(4))})
 		}
 	}
-	// last candidate: must hold given the range constraint; record it so that later terms simplify
-	in.assumeTerm(in.st.Eq(t, in.st.BVC(uint64(hi-1), int(t.Sort.W))))
-	return hi - 1
+	if len(vals) == 0 {
+		panic(&pathAbort{kind: "infeasible", msg: "no feasible value while concretising"})
+	}
+	for i := len(vals) - 1; i >= 1; i-- {
+		pre := make([]int32, len(p.Decisions)+1)
+		copy(pre, p.Decisions)
+		pre[len(p.Decisions)] = int32(vals[i] - lo)
+		in.sibs = append(in.sibs, WorkItem{Prefix: pre, Model: models[i], Tainted: p.Tainted})
+	}
+	p.Decisions = append(p.Decisions, int32(vals[0]-lo))
+	p.Prefix = p.Decisions
+	p.pos = len(p.Decisions)
+	if p.ModelOK {
+		p.Model = models[0]
+	}
+	in.addPC(in.st.Eq(t, in.st.BVC(uint64(vals[0]), w)))
+	return vals[0]
 }
 
 func (in *Interp) slice(instr *ssa.Slice, x, lo, hi, max Value) Value {
@@ -709,7 +770,10 @@ func (in *Interp) slice(instr *ssa.Slice, x, lo, hi, max Value) Value {
 		if c, ok := v.(int64); ok {
 			return c
 		}
-		t := v.(*term.T)
+		t := in.simplify(v.(*term.T))
+		if t.IsConst() {
+			return int64(t.C)
+		}
 		if t.Sort.W < 64 {
 			t = in.st.SExt(t, 64)
 		}
